@@ -1688,6 +1688,21 @@ def _m_path_join(I, args, kw):
 _BUILTIN_MODELS[_osp.join] = _m_path_join
 
 
+import unicodedata as _unicodedata
+
+
+def _m_normalize(I, args, kw):
+    form, text = args
+    if not isinstance(text, SStr):
+        return _unicodedata.normalize(form, text)
+    if isinstance(form, Sym):
+        raise HarnessError('unicodedata.normalize with a symbolic form')
+    return models.str_charmap(text, lambda ch: _unicodedata.normalize(form, ch), 'unicodedata.normalize')
+
+
+_BUILTIN_MODELS[_unicodedata.normalize] = _m_normalize
+
+
 def register_model(f, model):
     """model(I, args, kwargs) -> value | NotImplemented"""
     _BUILTIN_MODELS[f] = model
